@@ -7,10 +7,16 @@ import (
 	"github.com/Ptt-official-app/go-pttbbs/types"
 )
 
+// PostLog
+//
+// postlog_t in pttbbs (100 bytes): title is char[66] there, Title_t is 65 bytes,
+// so one explicit pad byte keeps the serialized (packed) size equal to POSTLOG_SZ
+// and TheDate at offset 92.
 type PostLog struct {
 	Author  ptttype.UserID_t
 	Board   ptttype.BoardID_t
 	Title   ptttype.Title_t
+	Pad     uint8
 	TheDate types.Time4
 	Number  int32
 }
